@@ -58,12 +58,16 @@ def build(ctx):
     ctx.units = ["src/cpp/ports.cpp (Ports::collapsePath, parent_path_p, read_path, move_path) via LLVM IR"]
     ctx.functions = ["Ports::collapsePath", "parent_path_p", "read_path", "move_path"]
     alpha = ["D", 1, 2]
-    shapes = [list(s) for n in ((1, 2, 3) if not thorough else (1, 2, 3, 4)) for s in itertools.product(alpha, repeat=n)]
-    more = [list(s) for s in itertools.product(alpha, repeat=4)] + [list(s) for s in itertools.product(alpha + [3], repeat=5)] + [list(s) for s in itertools.product(alpha, repeat=6)]
-    rnd.shuffle(more)
-    shapes += more[: (30 if not thorough else 400)]
+    # exhaustive: all structures of 1..3 components over {'..', 1-char, 2-char name}, and of 4..6 (7) components
+    # over {'..', 1-char name} (the collapsing logic depends on the component kinds, not on name lengths)
+    shapes = [list(s) for n in (1, 2, 3) for s in itertools.product(alpha, repeat=n)]
+    shapes += [list(s) for n in ((4, 5, 6) if not thorough else (4, 5, 6, 7)) for s in itertools.product(["D", 1], repeat=n)]
     if thorough:
-        shapes += [[rnd.choice(alpha + [3]) for _ in range(rnd.randint(7, 8))] for _ in range(100)]
+        more = [list(s) for s in itertools.product(alpha + [3], repeat=4)] + [list(s) for s in itertools.product(alpha, repeat=5)]
+        rnd.shuffle(more)
+        shapes += more[:150]
+    seen = set()
+    shapes = [s for s in shapes if not (tuple(s) in seen or seen.add(tuple(s)))]
     rt = [os.path.join(vlib.STUBS, "cxxrt.c"), os.path.join(vlib.STUBS, "nd_cbmc.c"), os.path.join(vlib.STUBS, "libc_extra.c")]
     for i, sh in enumerate(shapes):
         t, n = text(sh, vlib.REPO)
@@ -72,7 +76,7 @@ def build(ctx):
         q = ctx.add(vlib.Query(name, ["@IR@"] + rt, unwind=n + 4, objbits=12, native_sources=[h], native_cxx=True, native_lib_exclude=["ports.cpp"],
                                descr={"path": "/" + "/".join(".." if x == "D" else "x" * x for x in sh), "component bytes": "symbolic (not NUL, not '/', a short name does not start with '.')"}))
         q.prepare = (lambda name_, h_: (lambda q_: q_.sources.__setitem__(0, ctx.ir_translate(name_, h_, cxx=True))))(name, h)
-    ctx.bounds = {"components": "1..4 exhaustively over {'..', 1-char name, 2-char name}, sampled up to 6 (8 thorough)", "name bytes": "every byte except NUL and '/'"}
+    ctx.bounds = {"components": "exhaustive: 1..3 over {'..', 1-char, 2-char name}; 4..6 (7 thorough) over {'..', 1-char name}; thorough adds 150 sampled structures with longer names", "name bytes": "every byte except NUL and '/'"}
     ctx.assumptions = ["absolute, well-formed paths: '/' component ('/' component)*, no empty components, no trailing '/'",
                        "an ordinary component is not '..' (1- and 2-char names do not start with '.')"]
     ctx.stubs = ["C++ runtime: stubs/cxxrt.c"]
